@@ -9,6 +9,7 @@ import ChythonModel.Proofs.C02Closures
 import ChythonModel.Proofs.C02HeapBound
 import ChythonModel.Proofs.C02ReadOk
 import ChythonModel.Proofs.C02Final
+import ChythonModel.Proofs.C02Positional
 /-!
 # C02 — SMILES write then read is lossless; canonical strings never collide
 
@@ -409,6 +410,42 @@ theorem read_write_constitution (m : Mol) (env : Env) (opts : Opts) (rs : List R
       ∀ a b, (∃ e ∈ es, undirected e.a e.b = undirected a b) ↔ b ∈ nk m a :=
   writer_constitution m env opts rs order hwf h
 
+/-- **text_reads_back_constitution** (the property's own formulation, constitution part: "reading the text back gives a
+    molecule isomorphic to the original under the written atom order"): for every well-formed molecule without an
+    aromatic-bonded halogen (the lexical finding `clc`), every style, weights, orders, draws — the written body lexes
+    (`lex`), the positional reader `readL` (atoms numbered in order of appearance, as any SMILES reader does; executed by the
+    driver against the real `smiles(text)` on every case, op `L`) accepts it, counts exactly `|atoms|` atoms, and its bonds,
+    with position `i` standing for `smiles_atoms_order[i]`, are exactly the bonds of the molecule, each once. -/
+theorem text_reads_back_constitution (m : Mol) (env : Env) (opts : Opts) (rs : List Round) (order : List Nat)
+    (hwf : m.WF = true) (hAr : NoAromaticHalogen m opts) (h : smilesRounds m env opts = .ok (rs, order)) :
+    order.Perm m.ids ∧
+    ∃ lt pes, lex (renderAll (joinRounds rs)) = some lt ∧ readL lt = .ok (m.atoms.length, pes) ∧
+      (∀ p ∈ pes, p.1 < order.length ∧ p.2 < order.length) ∧
+      (pes.map fun p => undirected (atPos order p.1) (atPos order p.2)).Nodup ∧
+      ∀ a b, (∃ p ∈ pes, undirected (atPos order p.1) (atPos order p.2) = undirected a b) ↔ b ∈ nk m a := by
+  obtain ⟨hperm, hat, es, hes, hnd, hmem⟩ := writer_constitution m env opts rs order hwf h
+  have hlex := writer_token_roundtrip_partial m env opts rs order hAr h
+  obtain ⟨pes, hrl, hmap, hlt⟩ := readL_of_readToks _ es hes
+  rw [hat] at hrl hmap hlt
+  have hlen : order.length = m.atoms.length := by
+    rw [hperm.length_eq]; simp [Mol.ids]
+  have hund : (pes.map fun p => undirected (atPos order p.1) (atPos order p.2)) = es.map fun e => undirected e.a e.b := by
+    have := congrArg (List.map fun (q : Nat × Nat) => undirected q.1 q.2) hmap
+    simpa [List.map_map, Function.comp_def] using this
+  refine ⟨hperm, _, pes, hlex, hlen ▸ hrl, hlt, hund ▸ hnd, fun a b => ?_⟩
+  rw [← hmem a b]
+  constructor
+  · rintro ⟨p, hp, hpe⟩
+    have : undirected (atPos order p.1) (atPos order p.2) ∈ es.map fun e => undirected e.a e.b :=
+      hund ▸ List.mem_map.2 ⟨p, hp, rfl⟩
+    obtain ⟨e, he, hee⟩ := List.mem_map.1 this
+    exact ⟨e, he, hee.trans hpe⟩
+  · rintro ⟨e, he, hee⟩
+    have : undirected e.a e.b ∈ pes.map fun p => undirected (atPos order p.1) (atPos order p.2) :=
+      hund ▸ List.mem_map.2 ⟨e, he, rfl⟩
+    obtain ⟨p, hp, hpe⟩ := List.mem_map.1 this
+    exact ⟨p, hp, hpe.trans hee⟩
+
 /-- **constitution_injective** (collision clause without any per-run hypothesis): if two well-formed molecules — written
     with any styles, orderings, weights — receive the same token list, they have the same atoms and the same bonds.
     Contrapositive: molecules that differ in an atom id or in the presence of a bond never get the same tokens. -/
@@ -439,7 +476,10 @@ example : bicycloButane.WF = true ∧ twoComp.WF = true ∧
     (match smilesRounds bicycloButane bicycloEnv {} with | .ok (rs, _) => rs.length == 1 | .error _ => false) = true ∧
     (match smilesRounds twoComp twoCompEnv {} with
      | .ok (rs, order) => rs.length == 2 && order.length == 5 &&
-         (match readToks (joinRounds rs) with | .ok es => es.length == 4 | .error _ => false)
+         (match readToks (joinRounds rs) with | .ok es => es.length == 4 | .error _ => false) &&
+         (match lex (renderAll (joinRounds rs)) with
+          | some lt => (match readL lt with | .ok (n, pes) => n == 5 && pes == [(0, 1), (1, 2), (0, 2), (3, 4)] | .error _ => false)
+          | none => false)
      | .error _ => false) = true := by
   decide +kernel
 
